@@ -222,7 +222,7 @@ def main(argv):
             nsub = r2.randint(1, 3)
             sigs = [(r2.randint(0, 2), r2.randint(0, 2)) for _ in range(nsub)]
             out = ['script timeline0 {}', '']
-            for k in range(nsub): out.append('void testSub%d() {}' % k); out.append('')
+            for k in range(nsub): out.append(('void testSub%d() {}' if game != '06' else 'void testSub%d(int a, float b) {}') % k); out.append('')
             out.append('void sub%d() {' % nsub)
             for _ in range(r2.randint(2, 5)):
                 k = r2.randrange(nsub); ni, nf = sigs[k] if game != '06' else (0, 0)
@@ -234,6 +234,7 @@ def main(argv):
                     out.append('    %s = %s;' % (x, str(r2.randint(-5, 9)) if is_int else r2.choice(['%d.0' % r2.randint(0, 9), '0.00001', '30000000000000000.0', '0.000000001', '(-123456789012345678901234567890.0)', '0.1', '16777217.0'])))
                     if r2.random() < 0.15: out.append('    I0 = %d;' % r2.randint(0, 3))
                 if game != '06': out.append('    call(testSub%d);' % k)
+                else: out.append('    testSub%d(%d, %d.5);' % (k, r2.randint(-3, 9), r2.randint(0, 9)))   # EoSD: one call instruction with (int, float)
                 if r2.random() < (0.5 if game != '06' else 0.95):
                     # a run of adjacent same-opcode instructions with split difficulty masks (two-part compares, assignments)
                     labels = r2.choice([['EN', 'HL'], ['E', 'N', 'H', 'L'], ['EN', 'H', 'L'], ['E', 'NHL'], ['EH', 'L'], ['ENH', 'L']])
